@@ -103,9 +103,11 @@ namespace jsonpath {
         path_expression_type expr = evaluator.compile(*resources, path);
 
         jsoncons::jsonpath::detail::eval_context<Json,reference> context;
-        auto callback = [&new_value](const path_node_type&, reference v)
+        // new_value is assigned to every selected node: it must not be moved from on the first match
+        const auto& replacement = new_value;
+        auto callback = [&replacement](const path_node_type&, reference v)
         {
-            v = std::forward<T>(new_value);
+            v = replacement;
         };
 
         result_options options = result_options::nodups | result_options::path | result_options::sort_descending;
@@ -131,9 +133,11 @@ namespace jsonpath {
         path_expression_type expr = evaluator.compile(*resources, path);
 
         jsoncons::jsonpath::detail::eval_context<Json,reference> context{aset.get_allocator()};
-        auto callback = [&new_value](const path_node_type&, reference v)
+        // new_value is assigned to every selected node: it must not be moved from on the first match
+        const auto& replacement = new_value;
+        auto callback = [&replacement](const path_node_type&, reference v)
         {
-            v = Json(std::forward<T>(new_value), semantic_tag::none);
+            v = Json(replacement, semantic_tag::none);
         };
         result_options options = result_options::nodups | result_options::path | result_options::sort_descending;
         expr.evaluate(context, root, path_node_type{}, root, callback, options);
